@@ -13,6 +13,7 @@ import (
 	"fmt"
 	"math/rand/v2"
 	"net/http/httptest"
+	"os"
 	"path/filepath"
 	"runtime"
 	"sort"
@@ -62,8 +63,9 @@ func (y *yieldSink) Write(p []byte) (int, error) {
 }
 
 type input struct {
-	Op   ops.Op
-	Dump bool // final sequential full-state read
+	Op     ops.Op
+	Dump   bool // final sequential full-state read
+	Faulty bool // the file system failed for parts of this history: a mutating call may report a failure, and then has no effect
 }
 
 type output struct {
@@ -86,6 +88,9 @@ func model(initial *refmodel.Model) porcupine.Model {
 			}
 			c := m.Clone()
 			want := ops.ApplyModel(c, nil, true, i.Op)
+			if i.Faulty && o.Res.Class == refmodel.Other && want.Class != refmodel.Other {
+				return true, m // the call failed (its save could not be written): it is a no-op at its linearization point
+			}
 			return ops.Agree(want, o.Res), c
 		},
 		Equal: func(a, b interface{}) bool { return a.(*refmodel.Model).CanonFull() == b.(*refmodel.Model).CanonFull() },
@@ -102,9 +107,11 @@ func model(initial *refmodel.Model) porcupine.Model {
 type doer func(op ops.Op) ops.Result
 
 type hist struct {
-	clock atomic.Int64
-	mu    sync.Mutex
-	ops   []porcupine.Operation
+	clock  atomic.Int64
+	mu     sync.Mutex
+	ops    []porcupine.Operation
+	faulty bool
+	failed int
 }
 
 func (h *hist) record(client int, op ops.Op, do doer) {
@@ -113,7 +120,10 @@ func (h *hist) record(client int, op ops.Op, do doer) {
 	ret := h.clock.Add(1)
 	res.Err = "" // messages are not part of the comparison
 	h.mu.Lock()
-	h.ops = append(h.ops, porcupine.Operation{ClientId: client, Input: input{Op: op}, Call: call, Output: output{Res: res}, Return: ret})
+	h.ops = append(h.ops, porcupine.Operation{ClientId: client, Input: input{Op: op, Faulty: h.faulty}, Call: call, Output: output{Res: res}, Return: ret})
+	if h.faulty && res.Class == refmodel.Other && op.Kind.Mutating() {
+		h.failed++
+	}
 	h.mu.Unlock()
 }
 
@@ -150,6 +160,7 @@ type shape struct {
 	fillers int
 	kinds   map[ops.Kind]int
 	sameVal bool
+	faulty  bool
 }
 
 func TestC14(t *testing.T) {
@@ -165,6 +176,8 @@ func TestC14(t *testing.T) {
 			kinds: map[ops.Kind]int{ops.Info: 2, ops.Get: 3, ops.GetVer: 2, ops.GetCond: 2, ops.Put: 8, ops.Act: 4, ops.DelVer: 3, ops.Delete: 1}},
 		{name: "same-value-burst", clients: 8, perCli: 2, names: []string{"a"}, sameVal: true,
 			kinds: map[ops.Kind]int{ops.Put: 10, ops.Info: 1}},
+		{name: "failing-file-system", clients: 6, perCli: 6, names: []string{"a", "b"}, faulty: true,
+			kinds: map[ops.Kind]int{ops.List: 2, ops.Info: 4, ops.Get: 2, ops.GetVer: 3, ops.Put: 9, ops.Act: 3, ops.DelVer: 2, ops.Delete: 1}},
 	}
 	nDB, nHTTP := r.N(1500, 20000), r.N(400, 4000)
 	var wg sync.WaitGroup
@@ -191,7 +204,7 @@ func TestC14(t *testing.T) {
 	}
 	close(jobs)
 	wg.Wait()
-	r.Require("histories_db", "histories_http", "histories_linearizable", "overlapping_histories", "list_overlapping_two_puts", "same_value_puts_overlapping", "histories_over_loopback_sockets")
+	r.Require("histories_db", "histories_http", "histories_linearizable", "overlapping_histories", "list_overlapping_two_puts", "same_value_puts_overlapping", "histories_over_loopback_sockets", "histories_with_failing_file_system", "calls_failed_by_io_error_under_concurrency")
 	r.Rule("three history shapes: 'global-with-list' (4 clients x 5 ops: list/put/activate/get/delete on the first and last of 32 names, checked unpartitioned), 'per-key' (7 clients x 7 ops of all kinds on 3 names, partitioned by name), 'same-value-burst' (8 spin-synchronised clients putting the same value); audit sink injects yields/microsecond sleeps; DB API and HTTP handlers. Every history + a final sequential state read is decided by porcupine. Distinct = (shape, level, hash of the observed overlap pattern)")
 }
 
@@ -199,7 +212,12 @@ func oneHistory(t *testing.T, r *evid.Run, dir string, idx int, sh shape, level 
 	r.Eval(1)
 	rng := r.Rand(uint64(idx))
 	snk := &yieldSink{}
-	d, err := db.Open(filepath.Join(dir, fmt.Sprintf("h%d.db", idx)), realdb.DummyKey("c14"), audit.New(snk))
+	dbPath := filepath.Join(dir, fmt.Sprintf("h%d.db", idx))
+	if sh.faulty {
+		os.MkdirAll(filepath.Join(dir, fmt.Sprintf("hf%d", idx)), 0o700)
+		dbPath = filepath.Join(dir, fmt.Sprintf("hf%d", idx), "db")
+	}
+	d, err := db.Open(dbPath, realdb.DummyKey("c14"), audit.New(snk))
 	if err != nil {
 		t.Error(err)
 		return
@@ -283,10 +301,30 @@ func oneHistory(t *testing.T, r *evid.Run, dir string, idx int, sh shape, level 
 			plans[c] = append(plans[c], op)
 		}
 	}
-	h := &hist{}
+	h := &hist{faulty: sh.faulty}
 	var ready, wg sync.WaitGroup
 	var gate atomic.Bool
 	ready.Add(sh.clients)
+	faultDone := make(chan struct{})
+	if sh.faulty {
+		// the file system fails for a few short windows while the clients are at work
+		frng := r.Rand(uint64(idx) + 1<<41)
+		go func() {
+			defer close(faultDone)
+			for !gate.Load() {
+			}
+			for w := 0; w < 3; w++ {
+				for t0, d := time.Now(), time.Duration(frng.IntN(400))*time.Microsecond; time.Since(t0) < d; {
+				}
+				realdb.BreakDir(dbPath, func() {
+					for t0, d := time.Now(), time.Duration(100+frng.IntN(600))*time.Microsecond; time.Since(t0) < d; {
+					}
+				})
+			}
+		}()
+	} else {
+		close(faultDone)
+	}
 	for c := 0; c < sh.clients; c++ {
 		wg.Add(1)
 		go func(c int) {
@@ -302,6 +340,11 @@ func oneHistory(t *testing.T, r *evid.Run, dir string, idx int, sh shape, level 
 	ready.Wait()
 	gate.Store(true)
 	wg.Wait()
+	<-faultDone
+	if sh.faulty {
+		r.Count("histories_with_failing_file_system", 1)
+		r.Count("calls_failed_by_io_error_under_concurrency", h.failed)
+	}
 	// final sequential read of the whole state
 	final, err := realdb.Dump(d)
 	call := h.clock.Add(1)
